@@ -27,7 +27,31 @@ NAMES = ['BLACK', 'RED', 'GREEN', 'YELLOW', 'BLUE', 'MAGENTA', 'CYAN', 'WHITE']
 EFFECTS = ["bold", "faint", "underline", "blink", "crossed"]
 
 
+class _IntSub(int):
+    """an int subclass with a text form of its own (what an IntEnum member is on older Pythons): still the code it equals"""
+
+    def __str__(self):
+        return "Code(%d)" % int(self)
+    __repr__ = __str__
+
+
 def _spec(j):
+    # {"int_like": kind, "v": n}: a colour code given as an object that *is* an int: IntEnum member, int subclass, bool
+    if isinstance(j, dict):
+        kind, v = j["int_like"], j["v"]
+        if kind == "enum":
+            import enum
+            return enum.IntEnum("Level", {"V": v}).V
+        if kind == "sub":
+            return _IntSub(v)
+        return bool(v)
+    return tuple(j) if isinstance(j, list) else j
+
+
+def _plain(j):
+    """the plain value a specification stands for (int-like objects -> their int)"""
+    if isinstance(j, dict):
+        return int(bool(j["v"])) if j["int_like"] == "bool" else j["v"]
     return tuple(j) if isinstance(j, list) else j
 
 
@@ -40,7 +64,7 @@ def _expected_state(c):
     if c.get("no_color"):
         return sgr.DEFAULT
     eff = frozenset(k for k, v in (c.get("eff") or {}).items() if v)
-    return (sgr.color_index(_spec(c.get("fg"))), sgr.color_index(_spec(c.get("bg"))), eff)
+    return (sgr.color_index(_plain(c.get("fg"))), sgr.color_index(_plain(c.get("bg"))), eff)
 
 
 def _is_nt(c):
@@ -48,6 +72,8 @@ def _is_nt(c):
         return False
     def is256(s):
         return s is not None and not (isinstance(s, str) and s in NAMES)
+    if isinstance(c.get("fg"), dict) or isinstance(c.get("bg"), dict):
+        return True
     neff = sum(1 for v in (c.get("eff") or {}).values() if v)
     return is256(c.get("fg")) or c.get("bg") is not None or neff >= 2
 
@@ -71,8 +97,14 @@ def evaluate(case):
             ch = fmt(text)
             s = str(ch)
         except Exception as e:   # noqa
+            if isinstance(e, ValueError) and any(isinstance(c.get(k), dict) and c[k]["int_like"] == "bool" for k in ("fg", "bg")):
+                # True / False as a colour code: either the code 1 / 0 it equals, or rejected - nothing else
+                classes.add("bool_colour_code_rejected")
+                continue
             f.append(("valid_spec_raises_" + type(e).__name__, f"{c!r}: {e}"))
             continue
+        if any(isinstance(c.get(k), dict) for k in ("fg", "bg")):
+            classes.add("colour_code_given_as_int_like_object")
         objs.append(ch)
         exp_cells.extend((x, want) for x in text)
         try:
@@ -291,6 +323,10 @@ def axis_enum():
         cyc = [{"fg": "RED", "bg": None, "eff": {}}, {"fg": 200, "bg": None, "eff": {"bold": True}},
                {"fg": None, "bg": "g5", "eff": {}}, {"fg": None, "bg": None, "eff": {}}]
         yield {"chunks": [dict(cyc[i % 4], text="w%d" % i) for i in range(n)]}
+    for kind in ("enum", "sub", "bool"):
+        for v in (0, 1, 7, 196, 255):
+            yield {"chunks": [{"fg": {"int_like": kind, "v": v}, "bg": None, "eff": {}, "text": "ab"}]}
+            yield {"chunks": [{"fg": "RED", "bg": {"int_like": kind, "v": v}, "eff": {"bold": True}, "text": "ab"}]}
     for sp in INVALID:
         yield {"invalid": {"spec": sp, "where": "fg"}}
         yield {"invalid": {"spec": sp, "where": "bg"}}
@@ -304,7 +340,8 @@ def axis_enum():
 
 def st_spec():
     return st.one_of(
-        st.none(), st.sampled_from(NAMES), st.integers(0, 255),
+        st.none(), st.sampled_from(NAMES), st.integers(0, 255), st.integers(0, 255),
+        st.tuples(st.sampled_from(["enum", "sub", "bool"]), st.integers(0, 255)).map(lambda t: {"int_like": t[0], "v": t[1]}),
         st.lists(st.integers(0, 5), min_size=3, max_size=3),
         st.integers(0, 23).map(lambda i: "g%d" % i))
 
